@@ -30,10 +30,11 @@ type verifEntry struct {
 }
 
 var (
-	verifManifests   [][]verifEntry  // registry: serialisation id-1 -> entries
-	verifMessages    []proto.Message // registry for proto.Marshal
-	verifErrIO       = errors.New("verif: injected I/O failure")
-	verifErrNotFound = errors.New("verif: not found")
+	verifManifests    [][]verifEntry  // registry: serialisation id-1 -> entries
+	verifMessages     []proto.Message // registry for proto.Marshal
+	verifErrIO        = errors.New("verif: injected I/O failure")
+	verifErrTransient = errors.New("verif: injected transient failure")
+	verifErrNotFound  = errors.New("verif: not found")
 )
 
 // verifPrototextMarshal: injective abstract text serialisation of a VMEndorsementMap: one byte
@@ -133,6 +134,7 @@ type verifVCS struct {
 	getCalls, attempts, commits, results, retriableAsked int
 	workspaces                                           []*verifCops
 	lastRetriable, retriedAfterNonRetriable              bool
+	lastFaultTransient                                   bool
 	resultCommit                                         any
 	resultPath                                           string
 	otherEntry                                           verifEntry
@@ -152,13 +154,26 @@ type verifCops struct {
 	reads     []string
 }
 
-func (v *verifVCS) fail(what string) bool { return v.faults && verifNondetBool("fail_"+what) }
+// fail: an injected fault is either transient (the back end will call it retriable) or permanent;
+// the back end's verdict is a function of the error value it is shown, as a real one's is
+// (errors.Is against its own transient error), and the double remembers the kind of the most
+// recent fault as ground truth for "a new attempt only after a retriable error".
+func (v *verifVCS) fail(what string) error {
+	if !v.faults || !verifNondetBool("fail_"+what) {
+		return nil
+	}
+	v.lastFaultTransient = verifNondetBool("fault_is_transient")
+	if v.lastFaultTransient {
+		return verifErrTransient
+	}
+	return verifErrIO
+}
 
 func (v *verifVCS) GetChangeOps(ctx context.Context) (ChangeOps, error) {
 	v.calls++
 	v.effects++
 	v.getCalls++
-	if v.attempts > 0 && !v.lastRetriable {
+	if v.attempts > 0 && !v.lastFaultTransient {
 		v.retriedAfterNonRetriable = true
 	}
 	v.attempts++
@@ -176,8 +191,8 @@ func (v *verifVCS) GetChangeOps(ctx context.Context) (ChangeOps, error) {
 		next := append(append([]verifEntry(nil), cur...), v.otherEntry)
 		v.head.put(mp, verifSerializeManifest(next))
 	}
-	if v.fail("getchangeops") {
-		return nil, verifErrIO
+	if err := v.fail("getchangeops"); err != nil {
+		return nil, err
 	}
 	c := &verifCops{vcs: v, id: v.attempts, ws: v.head.clone(), sawOther: v.otherDone}
 	v.workspaces = append(v.workspaces, c)
@@ -187,7 +202,7 @@ func (v *verifVCS) GetChangeOps(ctx context.Context) (ChangeOps, error) {
 func (v *verifVCS) RetriableError(err error) bool {
 	v.calls++
 	v.retriableAsked++
-	v.lastRetriable = verifNondetBool("retriable")
+	v.lastRetriable = errors.Is(err, verifErrTransient)
 	return v.lastRetriable
 }
 
@@ -205,8 +220,8 @@ var releaseManifestPath = "out/" + ManifestFile
 func (c *verifCops) WriteOrCreateFiles(ctx context.Context, files ...*File) error {
 	c.vcs.calls++
 	c.vcs.effects++
-	if c.vcs.fail("write") {
-		return verifErrIO
+	if err := c.vcs.fail("write"); err != nil {
+		return err
 	}
 	for _, f := range files {
 		c.ws.put(f.Path, f.Contents)
@@ -218,8 +233,8 @@ func (c *verifCops) WriteOrCreateFiles(ctx context.Context, files ...*File) erro
 func (c *verifCops) ReadFile(ctx context.Context, path string) ([]byte, error) {
 	c.vcs.calls++
 	c.reads = append(c.reads, path)
-	if c.vcs.fail("read") {
-		return nil, verifErrIO
+	if err := c.vcs.fail("read"); err != nil {
+		return nil, err
 	}
 	i := c.ws.find(path)
 	if i < 0 {
@@ -231,8 +246,8 @@ func (c *verifCops) ReadFile(ctx context.Context, path string) ([]byte, error) {
 func (c *verifCops) SetBinaryWritable(ctx context.Context, path string) error {
 	c.vcs.calls++
 	c.vcs.effects++
-	if c.vcs.fail("setbinary") {
-		return verifErrIO
+	if err := c.vcs.fail("setbinary"); err != nil {
+		return err
 	}
 	if i := c.ws.find(path); i >= 0 {
 		c.ws.files[i].binary = true
@@ -250,8 +265,8 @@ func (c *verifCops) Destroy() {
 func (c *verifCops) TryCommit(ctx context.Context) (any, error) {
 	c.vcs.calls++
 	c.vcs.effects++
-	if c.vcs.fail("commit") {
-		return nil, verifErrIO
+	if err := c.vcs.fail("commit"); err != nil {
+		return nil, err
 	}
 	c.vcs.commits++
 	c.committed = true
